@@ -574,7 +574,12 @@ func (c *tunnelChannel) close(err error) bool {
 
 	c.finished = true
 	if err == nil {
-		err = io.EOF
+		// No error means a clean close, unless the stream that carries the
+		// tunnel has already ended: then that is why the tunnel ends (and
+		// Err must keep reporting it after this close).
+		if err = c.ctx.Err(); err == nil {
+			err = io.EOF
+		}
 	}
 	c.err = err
 	for _, st := range c.streams {
